@@ -191,7 +191,7 @@ Definition payload (index : N) (values change : cmap) : option req :=
 (* Applied.Values (loaded from the same Atomix map) += upd; UpdateStatus stores them *)
 Definition record_applied (index : N) (m va vw change : cmap) : cmap :=
   let upd := fst (add_delete_children index change vw) in
-  store_write m (fold_left (fun acc '(p, v) => insert p v acc) upd va).
+  store_write m (fold_left (fun acc '(p, v) => fst (apply_change_to_config acc p v)) upd va).
 (* the loaded view as mutated by AddDeleteChildren through the shared pointers *)
 Definition touched (index : N) (vw change : cmap) : cmap := snd (add_delete_children index change vw).
 (* any other UpdateStatus: the loaded applied values are stored again *)
